@@ -90,6 +90,15 @@ def draw_case(data, tier):
         return _draw_average_cfg(data, tier)
     cfg = netgen.draw_model_cfg(data, tier, equivariant=True, classes=["ConvBlock", "ResNet", "ResNet", "UNet", "DilResNet"])
     cfg["depth"] = min(cfg["depth"], 2)
+    if cfg["cls"] in ("ConvBlock", "ResNet") and data.draw(st.integers(0, 3), label="wide") == 0:
+        # a wide layer (8-9 channels per type): anything that switches strategy with the layer width is reached
+        cfg["depth"] = 8
+        cfg["wide"] = True
+        if cfg["cls"] == "ConvBlock":
+            for m in cfg["out_sig"]:
+                m[1] = 8 + (m[1] % 2)
+            if cfg["preact"]:
+                cfg["in_sig"] = [list(map(lambda v: list(v) if isinstance(v, list) else v, m)) for m in cfg["out_sig"]]
     for m in cfg.get("mid_sig", []):
         m[1] = cfg["depth"]  # explicit mid_keys carry `depth` channels
     cfg["num_blocks"] = 1
@@ -120,7 +129,7 @@ def _make_loss(kind):
 
 def run_case(cfg):
     d = cfg["d"]
-    labels = ["cls_" + cfg["cls"], f"d{d}", "G_" + cfg["G"], "opt_" + cfg["opt"], "loss_" + cfg["loss"], "driver_" + cfg["driver"], "norm" if cfg["group_norm"] else "nonorm", f"bias_{cfg['bias']}"]
+    labels = ["cls_" + cfg["cls"], f"d{d}", "G_" + cfg["G"], "opt_" + cfg["opt"], "loss_" + cfg["loss"], "driver_" + cfg["driver"], "norm" if cfg["group_norm"] else "nonorm", f"bias_{cfg['bias']}", "wide" if cfg.get("wide") else "narrow"]
     key = [netgen.cfg_key({k: v for k, v in cfg.items() if k not in ("pseed", "xseed", "gs")})]
     if cfg["cls"] == "GroupAverage":
         labels += ["nested" if cfg["nested"] else "toplevel", "always_average" if cfg["always_average"] else "inference_flag"]
